@@ -25,7 +25,7 @@ PLAN = dict(
     tiers=dict(
         quick=[det("rel", H, "cs-rel", 16, 200, 4, tso=True, time_cap=40),
                det("dbg", H, "cs-dbg", 16, 32, 4, tso=True, time_cap=22),
-               tsan("C19", 4, 80)] + WIT,
+               tsan("C19", 8, 240)] + WIT,
         thorough=[det("rel", H, "cs-rel", 16, 1500, 5, tso=True, time_cap=230),
                   det("dbg", H, "cs-dbg", 16, 500, 5, tso=True, time_cap=150),
                   det("enum-conflict", H, "cs-rel", 16, 20, 2, tso=True, time_cap=90, enum="conflict", enum_cap=300),
